@@ -54,12 +54,16 @@ Variables (p : prog) (un : names) (args_of : nat -> list var) (own_of : nat -> l
           (fbuild : nat -> nat -> res (list mnode * req * list fdesc)).
 Hypothesis Hargs : forall g a, In a (args_of g) -> exists n, vnode a = NReal n.
 
+(* the requirement of a result identity: ("", 14), or ("", 16) when a result is of Optional type *)
+Definition hasfloor (rq : req) : Prop := exists v, INTERNAL_MIN_OPSET <= v /\ has rq (""%string, v).
+Lemma hasfloor_mono rq rq' : (forall dv, has rq dv -> has rq' dv) -> hasfloor rq -> hasfloor rq'.
+Proof. intros Hm [v [Hv Hh]]. exists v. split; [exact Hv|now apply Hm]. Qed.
 (* every result identity named since s0 has its requirement recorded in rq *)
 Definition R (s0 s : scope) (rq : req) : Prop :=
   forall g k n, lookup var_eqb (V (NIntro g) k) (vname s) = Some n ->
-    lookup var_eqb (V (NIntro g) k) (vname s0) = Some n \/ has rq ("", INTERNAL_MIN_OPSET).
+    lookup var_eqb (V (NIntro g) k) (vname s0) = Some n \/ hasfloor rq.
 Lemma R_mono s0 s rq rq' : (forall dv, has rq dv -> has rq' dv) -> R s0 s rq -> R s0 s rq'.
-Proof. intros Hm Hr g k n Hl. destruct (Hr g k n Hl); auto. Qed.
+Proof. intros Hm Hr g k n Hl. destruct (Hr g k n Hl) as [|Hh]; [now left|right; eapply hasfloor_mono; eauto]. Qed.
 
 Definition accR (s0 : scope) (acc : list mnode * scope * req * list fdesc * list fdesc) : Prop :=
   let '(ms, s, rq, fs, sfs) := acc in R s0 s rq.
@@ -85,8 +89,8 @@ Proof. induction l as [|ka t IH]; intros [[[l0 sa] rqa] fsa] al sz rqz fz H Hr; 
     destruct (snd ka) as [sub|x]; [|inversion Hk; subst; exact Hr].
     apply bind_ok in Hk. destruct Hk as [[[[mg0 sb] rqb] fsb] [Hc Hk]]. inversion Hk; subst.
     pose proof (Hrec _ _ _ _ _ _ _ _ Hc) as Hsub. intros g k n Hl. destruct (Hsub g k n Hl) as [Hb|Hh].
-    + destruct (Hr g k n Hb) as [H0|Hh]; [now left|right; now apply has_union_l].
-    + right. apply has_union_r. now apply has_In. Qed.
+    + destruct (Hr g k n Hb) as [H0|Hh]; [now left|right; eapply hasfloor_mono; [|exact Hh]; intros dv0 Hd0; now apply has_union_l].
+    + right. eapply hasfloor_mono; [|exact Hh]. intros dv0 Hd0. apply has_union_r. now apply has_In. Qed.
 
 Lemma step_R prefix s0 acc u acc' : compile_step p un fbuild rec prefix acc u = inl acc' -> accR s0 acc -> accR s0 acc'.
 Proof.
@@ -100,7 +104,7 @@ Proof.
     apply bind_ok in Hu. destruct Hu as [s2 [Hu2 Hu]].
     assert (Hr2 : R s0 s2 rqm).
     { intros g k x Hl. destruct (scope_update_new _ _ _ _ _ _ _ _ Hu2 Hl) as [Hl0|E]; [|discriminate E].
-      destruct (Hr g k x Hl0); [now left|right; auto]. }
+      destruct (Hr g k x Hl0) as [|Hh]; [now left|right; eapply hasfloor_mono; [exact Hm|exact Hh]]. }
     destruct (kind (getn p n)) as [| | |om imp|body fi fo fa] eqn:Hk.
     + inversion Hu; subst. exact Hr.
     + apply bind_ok in Hu. destruct Hu as [o [_ Hu]]. inversion Hu; subst. exact Hr2.
@@ -125,8 +129,9 @@ Proof.
     apply bind_ok in Hu. destruct Hu as [nm [_ Hu]]. apply bind_ok in Hu. destruct Hu as [i [_ Hu]].
     apply bind_ok in Hu. destruct Hu as [o [_ Hu]]. inversion Hu; subst.
     intros g k x Hl. destruct (scope_update_new _ _ _ _ _ _ _ _ Hu2 Hl) as [Hl0|E].
-    + destruct (Hr g k x Hl0); [now left|right; first [now apply has_union_l | now apply has_add_set]].
-    + right. first [apply has_union_r; cbn; now left | apply has_add_set_new].
+    + destruct (Hr g k x Hl0) as [|Hh]; [now left|right; eapply hasfloor_mono; [|exact Hh]; intros dv0 Hd0; first [now apply has_union_l | now apply has_add_set]].
+    + right. exists (intro_version p g'). split; [unfold intro_version, INTERNAL_MIN_OPSET; destruct (existsb _ _); lia|].
+      first [apply has_union_r; cbn; now left | apply has_add_set_new].
 Qed.
 End Step.
 
@@ -150,7 +155,7 @@ Qed.
 
 (* a successfully compiled graph (it has at least one result, whose name the value infos needed) records ("", 14) *)
 Theorem compile_records_floor fuel g prefix vi mg s' rq fs :
-  compile p un args_of own_of fbuild fuel scope0 g prefix vi = inl (mg, s', rq, fs) -> has rq ("", INTERNAL_MIN_OPSET).
+  compile p un args_of own_of fbuild fuel scope0 g prefix vi = inl (mg, s', rq, fs) -> hasfloor rq.
 Proof.
   intros H. pose proof (compile_R _ _ _ _ _ _ _ _ _ H) as Hr.
   destruct fuel as [|f]; [discriminate|]. cbn [Build.compile] in H.
@@ -217,7 +222,7 @@ Qed.
 
 (* ---------- the public build ---------- *)
 Theorem build_main_records_floor vi ffuel p un main b :
-  wf_gargs p -> build_main_gen vi ffuel p un main = inl b -> has (b_req b) ("", INTERNAL_MIN_OPSET).
+  wf_gargs p -> build_main_gen vi ffuel p un main = inl b -> hasfloor (b_req b).
 Proof. intros Hwf. destruct ffuel as [|ff]; [discriminate|]. cbn [build_main_gen]. intros H.
   apply bind_ok in H. destruct H as [d [Hd H]]. apply bind_ok in H. destruct H as [[[[mg s] rq] fs] [Hc H]].
   inversion H; subst. cbn [b_req]. eapply compile_records_floor; [|exact Hc].
@@ -244,8 +249,8 @@ Proof.
     - inversion Hl; subst l. apply Forall_forall. intros a Hin. apply Hsub in Hin. apply in_map_iff in Hin. destruct Hin as [kv [E Hk]].
       specialize (Earg kv Hk). rewrite E in Earg. destruct a as [[n|g0] j]; [exists n; reflexivity|cbn in Earg; discriminate].
     - apply (Hwf (S g) l). unfold getg. destruct (graphs p) as [|g0 gs]; [destruct g; cbn in Hl; discriminate Hl|exact Hl]. }
-  pose proof (build_main_records_floor _ _ _ _ _ _ Hwf' Hb) as Hh. apply has_In in Hh.
-  destruct (policy_covers _ _ Hh) as [v [Hl Hv]]. exists v. split; [exact Hl|exact Hv].
+  pose proof (build_main_records_floor _ _ _ _ _ _ Hwf' Hb) as Hh. destruct Hh as [v0 [Hv0 Hh]]. apply has_In in Hh.
+  destruct (policy_covers _ _ Hh) as [v [Hl Hv]]. exists v. split; [exact Hl|cbn [snd] in Hv; unfold INTERNAL_MIN_OPSET in Hv0; lia].
 Qed.
 
 (* the premise as an executable test on the program (evaluated on every program of the C09 check) *)
